@@ -2,6 +2,7 @@ package props
 
 import (
 	"fmt"
+	nurl "net/url"
 	"strings"
 
 	distiller "github.com/markusmobius/go-domdistiller"
@@ -125,6 +126,11 @@ func c13Check(c *eng.Case) *eng.Outcome {
 					wantURL := ""
 					if urlSet == 1 {
 						wantURL = c.URL
+						// the caller supplies a *url.URL: its String() form is what "the supplied URL" means
+						// (a raw non-ASCII path is escaped by it)
+						if pu, err := nurl.Parse(c.URL); err == nil {
+							wantURL = pu.String()
+						}
 					}
 					if res.URL != wantURL {
 						o.V("result-url", "Result.URL=%q, supplied %q (%s)", res.URL, wantURL, cfg)
